@@ -5419,6 +5419,13 @@ class Arc(Curve):
 
         rx_sq = rx * rx
         ry_sq = ry * ry
+        if rx_sq == 0 or ry_sq == 0:
+            # Radii too small to square are as good as zero.
+            self.sweep = 0
+            self.prx = Point(start)
+            self.pry = Point(start)
+            self.center = Point(start)
+            return
 
         # Correct out of range radii
         radius_check = (x1prim_sq / rx_sq) + (y1prim_sq / ry_sq)
